@@ -2,7 +2,7 @@
 """C05 - runtime life cycle: wait/stop drain all work, restart works.
 Lean model Life + Props/C05.lean; tie: E2 logs of generated life-cycle histories (1-5 incarnations per
 process, different thread counts / scheduling policies, external submitters racing wait/stop,
-suspend/resume, four shutdown styles) on the live runtime."""
+suspend/resume, four shutdown styles, stop() entered while running or while SUSPENDED) on the live runtime."""
 import os, sys
 sys.path.insert(0, os.path.join(os.path.dirname(os.path.abspath(__file__)), '..', 'tools'))
 import e2check
@@ -15,16 +15,46 @@ def runs(rng, tier):
             out.append([rng.below(1 << 30), rng.choice([0, 50, 200, 400]), 1 + rng.below(5), rng.choice([2, 4, 8])])
         for k in range(200):   # the stop()-entered-before-finalize style, forced
             out.append([rng.below(1 << 30), rng.choice([0, 100, 300]), 1 + rng.below(3), rng.choice([3, 6]), 1])
+        forced, pending = stop_suspended_runs(rng, 6, 4)
+        out = pending + out + forced      # the probes need >= 12 s each (600 quiet observations): start them first
     else:
         for k in range(40):
             out.append([rng.below(1 << 30), rng.choice([0, 100, 300]), 1 + rng.below(4), rng.choice([2, 4, 6])])
         for k in range(8):
             out.append([rng.below(1 << 30), rng.choice([0, 100]), 1 + rng.below(2), rng.choice([3, 5]), 1])
+        forced, pending = stop_suspended_runs(rng, 1, 1)
+        out = pending + out + forced
     return out
 
 
+POLICIES = 8
+
+
+def stop_suspended_runs(rng, rounds, pending):
+    """Follow-up C05h: stop() entered while the runtime is SUSPENDED (smode 1), after suspend; suspend (3), after
+    suspend; resume (2) - forced, so that every run of the check has them for every scheduling policy and for 1..4
+    threads, with each way of calling finalize (main or another OS thread / a task / after an entry function) -
+    plus `pending` directed probes of stop() on a suspended runtime that holds queued work (smode 4: the unchanged
+    tree keeps polling; the harness' state-based stuck verdict must find exactly that state: `end pending-stop`)."""
+    out, probes = [], []
+    for _ in range(rounds):
+        pols = list(range(POLICIES))
+        for i, pol in enumerate(pols):
+            th = 1 + (i + rng.below(4)) % 4
+            style = [0, 2, 3][(i + rng.below(3)) % 3]
+            out.append([rng.below(1 << 30), rng.choice([0, 100, 300]), 1 + rng.below(2), rng.choice([2, 4]), style, th, pol, 0, 1])
+        for smode in (3, 2, 3, 2):
+            out.append([rng.below(1 << 30), rng.choice([0, 100]), 1 + rng.below(2), rng.choice([2, 4]), rng.choice([0, 2, 3]),
+                        1 + rng.below(4), rng.below(POLICIES), 0, smode])
+    for _ in range(pending):
+        probes.append([rng.below(1 << 30), 0, 1, 3, rng.choice([0, 2, 3]), 1 + rng.below(3), rng.below(POLICIES), 0, 4])
+    return out, probes
+
+
 def extra_runs(rng, tier):
-    return [[rng.below(1 << 30), rng.choice([100, 400]), 2, 6, st] for st in (0, 1, 1, 1, 2, 3) for _ in range(3)]
+    return ([[rng.below(1 << 30), rng.choice([100, 400]), 2, 6, st] for st in (0, 1, 1, 1, 2, 3) for _ in range(3)] +
+            [[rng.below(1 << 30), rng.choice([0, 200]), 2, 4, st, 1 + rng.below(4), rng.below(POLICIES), 0, sm]
+             for st in (0, 2, 3) for sm in (1, 3)])
 
 
 def nontrivial(raw):
@@ -34,7 +64,11 @@ def nontrivial(raw):
 
 def stats(raw):
     d = {k: raw.count(' ' + k + ' ') for k in ('gac.inc', 'gac.sample', 'newq.push', 'task.rebind', 'rt.suspend', 'pu.sleep',
-                                               'life.stop.exit', 'x.wait.exit', 'body.enter', 'rt.result')}
+                                               'life.stop.exit', 'x.wait.exit', 'body.enter', 'rt.result',
+                                               'x.susp2.exit', 'x.res0.exit')}
+    # stop() entered while suspended (harness note `x.stop.enter 0 1 0`) and such stops that returned
+    d['stop_entered_suspended'] = raw.count(' x.stop.enter 0 1 ')
+    d['stop_pending_probe'] = 1 if 'end pending-stop' in raw else 0
     # samples that saw a busy counter (wait had to go on) and samples taken from inside a task
     busy = task = 0
     for line in raw.split('\n'):
@@ -51,16 +85,19 @@ def stats(raw):
 
 
 # seed, perturbation, incarnations, size, style, ?, ?, race_suspend=2: a helper submits low-priority tasks while main calls suspend()
-FINDING_RUNS = {'C05-suspend-lowprio': [[12, 0, 2, 6, -1, 0, -1, 2], [2, 0, 2, 6, -1, 0, -1, 2], [3, 0, 2, 6, -1, 0, -1, 2], [4, 0, 2, 6, -1, 0, -1, 2]]}
+FINDING_RUNS = {'C05-suspend-lowprio': [[12, 0, 2, 6, -1, 0, -1, 2], [2, 0, 2, 6, -1, 0, -1, 2], [3, 0, 2, 6, -1, 0, -1, 2], [4, 0, 2, 6, -1, 0, -1, 2]],
+                # smode 5: every worker held between its store of `sleeping` and the condition-variable wait until
+                # stop() has sent all its notifications (directed, released from state only)
+                'C05-stop-suspended-lostwake': [[1, 0, 1, 3, 0, 2, 1, 0, 5], [2, 0, 1, 3, 3, 3, 4, 0, 5]]}
 
 e2check.run(dict(
     finding_runs=FINDING_RUNS,
     prop='C05', model='life', harness='e2/life.cpp', bin='e2_life', props=['C05'], translators=[],
     runs=runs, extra_runs=extra_runs, nontrivial=nontrivial, stats=stats, par=3, timeout_s=900,
-    rule='life-cycle histories `start cfg; (submit* | external_submit | wait | wait-from-a-task | suspend; submit*; resume)*; finalize; stop` repeated 1-5 times per process with PRNG-chosen thread counts (1-6) and scheduling policies (all 8), task trees with mixed priorities/stack sizes/yields, OS threads submitting concurrently with wait()/stop(), four shutdown styles (finalize then stop; stop entered before finalize with a helper submitting and then finalizing; finalize from a task; entry function returning a value), PRNG timing perturbation at the instrumented sites; non-trivial = the run contains a suspension, at least one restart and a staged task conversion; distinct = distinct argv',
+    rule='life-cycle histories `start cfg; (submit* | external_submit | wait | wait-from-a-task | wait-from-a-second-OS-thread | suspend; [suspend]; [wait]; submit*; resume; [resume] | resume-while-running)*; finalize (main / another OS thread / a task / after an entry function); [suspend; [suspend] | suspend; submit*; resume]; stop` (stop() entered while running or while SUSPENDED, forced for all 8 policies x 1-4 threads in every run of the check) repeated 1-5 times per process with PRNG-chosen thread counts (1-6) and scheduling policies (all 8), task trees with mixed priorities/stack sizes/yields, OS threads submitting concurrently with wait()/stop(), four shutdown styles (finalize then stop; stop entered before finalize with a helper submitting and then finalizing; finalize from a task; entry function returning a value), PRNG timing perturbation at the instrumented sites; non-trivial = the run contains a suspension, at least one restart and a staged task conversion; distinct = distinct argv',
     trusted_extra=['the life-cycle hooks are add-only lines (gac.inc/gac.dec/gac.sample read the counter under the log lock; rt.*/life.* are notes placed after the corresponding store or inside the corresponding mutex)',
                    'driver normalisation: a `task.new` immediately followed on the same OS thread by `heap.pool` for the same object (pre-allocation for the recycling heap) is dropped'],
-    assumptions=['histories respect the documented preconditions: stop/suspend/resume from non-pika threads, nothing is submitted from outside once finalize() was signalled and the work has drained, at most one task at a time blocks in wait()',
+    assumptions=['histories respect the documented preconditions: stop/suspend/resume from non-pika threads, nothing is submitted from outside once finalize() was signalled and the work has drained, at most one task at a time blocks in wait(); stop() on a suspended runtime that still holds queued work does not return in the unchanged tree (documented: no progress while suspended) and is exercised only by the directed `pending-stop` probe; pika::finalize() is called while the runtime is running (it throws invalid_status on a suspended runtime)',
                  'activity sources other than tasks (CUDA/MPI polling) are not built in this tree and are not modelled',
                  'completion of every submitted task body (ledger) and the absence of body activity during suspension are additionally observed by monitors on each run; the theorems cover the counter/phase protocol'],
 ))
